@@ -2,6 +2,8 @@
 
 Correspondence: Model/Tlv.v (extracted) vs ndn.encoding.tlv_model on random model *classes* built with
 type() (incl. IncludeBase/override) and on every shipped TlvModel class (reflected on this run).
+Derivation: random families of class DEFINITIONS (IncludeBase of 0..3 bases, diamonds, overrides, nested includes);
+the expected field list comes from the extracted collect (Model/TlvCollect.v), not from the class.
 Direct oracle on the implementation: announced size = produced size; T/L in shortest form; integers in
 the smallest legal width unless fixed; parse(encode(v)) = v; unknown non-critical elements inserted at
 any position of any nesting level are ignored; unknown / repeated / out-of-order critical ones rejected.
@@ -19,7 +21,19 @@ RULE = ('random TlvModel classes (1..6 fields per level, nesting <= 3, type numb
         'shipped TlvModel classes; values at every integer width boundary, non-ASCII text, 0/252/253/65535/65536+ '
         'byte strings; wires: encoder output, single-edit mutants, unknown critical/non-critical elements inserted at '
         'every position of every level, duplicated and swapped elements. non-trivial = at least two fields present or '
-        'a nested level; distinct by (descriptor, value/wire) hash')
+        'a nested level; distinct by (descriptor, value/wire) hash. '
+        'Class DEFINITIONS with derivation: families of 2..7 classes defined at run time with type() over a pool of 2..8 '
+        'attribute names -- 0..3 bases each (plain inheritance, IncludeBase of one / two / three bases, the same base '
+        'twice, includes of classes that include, bases sharing names through common ancestors = diamonds), 0..4 own '
+        'fields placed before / between / after the includes, 60% of them carrying a name of an included base '
+        '(override after the include, own field replaced by a later include), overrides keeping or changing the Type '
+        'number and the kind, fields that are sub-models of earlier classes of the family; the EXPECTED field list '
+        'is computed from the definition by the extracted collect of Model/TlvCollect.v (theorems C08_collect_*: base '
+        'bodies pasted at their IncludeBase, each name once at its first place with its last field), never read from '
+        'the class; oracle: the class is definable, _encoded_fields is that list (same Field objects, same order), and '
+        'instances addressed by the expected names pass every oracle above under the expected descriptor; '
+        'non-trivial = at least one IncludeBase; strata classdef.<includes>.<nested|plain-base|replace-in-include|'
+        'override-after|own-before-include>')
 ASSUMPTIONS = ['str<->UTF-8 conversion is done by CPython in the adapter; the model works on the UTF-8 bytes',
                'False / [] / {} are canonicalised to "absent" by the adapter (they encode to nothing)']
 
@@ -565,7 +579,7 @@ def run_hierarchy(ctx, M, nvals):
         dexp = ['model', rng.random() < 0.15, [(h.decls[k][1], h.decls[k][2]) for _, k in exp], cls]
         built[i] = (cls, dexp)
         # (c) instances encode every expected field once, in that order, with the announced size, and parse back
-        if exp and ('inc0' not in shape or rng.random() < 0.3):
+        if exp and rng.random() < (0.3 if 'inc0' in shape else ctx.n(1.0, 0.35)):
             run_class(ctx, M, dexp, nvals, 'derived', names=[FIELD_NAMES[n] for n, _ in exp])
 
 
@@ -609,5 +623,5 @@ def run(ctx):
             continue
         run_class(ctx, M, d, ctx.n(3, 6), 'generated')
     # random class DEFINITIONS with derivation; expectation from the extracted collect (Model/TlvCollect.v)
-    for i in range(ctx.n(150, 5000)):
-        run_hierarchy(ctx, M, ctx.n(2, 4))
+    for i in range(ctx.n(150, 3000)):
+        run_hierarchy(ctx, M, 2)
